@@ -327,14 +327,15 @@ func (S06) RunTape(t *sim.Tape, st *sim.Stats, keepLog bool) *sim.Outcome {
 		}
 		keysBefore := be.nkeys()
 		commitsBefore := len(seam.Commits)
+		syncCap := caps&1 != 0 // half the store-side runs hand the library a writer that also offers Sync()
 		seam.NextWrite = func() *simstore.WriteFault {
 			switch kind {
 			case 8:
-				return &simstore.WriteFault{Kind: "writeerr", AtWrite: pos, Partial: pos2, OneShot: sticky}
+				return &simstore.WriteFault{Kind: "writeerr", AtWrite: pos, Partial: pos2, OneShot: sticky, Sync: syncCap}
 			case 9:
-				return &simstore.WriteFault{Kind: "commiterr"}
+				return &simstore.WriteFault{Kind: "commiterr", Sync: syncCap}
 			}
-			return nil
+			return &simstore.WriteFault{Sync: syncCap}
 		}
 		seam.NextRead = func(l datamodel.Link) *simstore.ReadFault { return benign() }
 		s.Go("storer", func() {
@@ -770,7 +771,7 @@ func (sc S06) Unit(u *scen.Unit) {
 	}
 	// store side
 	for j := 0; j < bi.NWrites && j < 300; j++ {
-		u.Exec(map[string]int{"f.kind": 8, "f.pos": j, "f.pos2": 0, "f.sticky": 0})
+		u.Exec(map[string]int{"f.kind": 8, "f.pos": j, "f.pos2": 0, "f.sticky": 0, "f.caps": j & 1})
 		u.Exec(map[string]int{"f.kind": 8, "f.pos": j, "f.pos2": 1 + int(sim.SeedFor(int64(u.Seed), "partial", j)%7), "f.sticky": 0})
 		// transient failure: only this one Write fails, later ones succeed again
 		u.Exec(map[string]int{"f.kind": 8, "f.pos": j, "f.pos2": 0, "f.sticky": 1})
@@ -779,7 +780,7 @@ func (sc S06) Unit(u *scen.Unit) {
 	u.Exec(map[string]int{"f.kind": 9})
 	u.St.Inc("enum.commiterr")
 	for k := 0; k < bi.NAccess && k < 200; k++ {
-		u.Exec(map[string]int{"f.kind": 10, "f.pos": k})
+		u.Exec(map[string]int{"f.kind": 10, "f.pos": k, "f.caps": k & 1})
 		u.St.Inc("enum.encfail")
 	}
 }
